@@ -555,11 +555,26 @@ func (ma *modAnalysis) region(fn *ssa.Function, in map[*ssa.BasicBlock]bool) *mo
 					ms.unknown = append(ms.unknown, unk)
 				}
 				for _, f := range fns {
+					if ct := ma.w.db.Contracts[f.String()]; ct != nil && ct.External {
+						// assumed contract (also used to cut the analysis at module functions treated as opaque)
+						for _, k := range ct.Modifies {
+							ms.shape(ma.w.db.modKey(k)).any = true
+						}
+						for _, em := range ct.Emits {
+							ms.shape("G_" + em.Label).any = true
+						}
+						continue
+					}
+					if ct := ma.w.db.Contracts[f.String()]; ct != nil {
+						for _, em := range ct.Emits {
+							ms.shape("G_" + em.Label).any = true
+						}
+					}
 					if cs, ok := ma.sets[f]; ok {
 						ma.mergeCallee(ms, cs, call, in)
 					} else if ct := ma.w.db.Contracts[f.String()]; ct != nil {
 						for _, k := range ct.Modifies {
-							ms.shape(k).any = true
+							ms.shape(ma.w.db.modKey(k)).any = true
 						}
 					}
 				}
@@ -596,4 +611,12 @@ func (ma *modAnalysis) mapKeys(t types.Type) (string, string, string) {
 	md, mv, mc := ma.c.mapKeys(t)
 	ma.keyTypes[md], ma.keyTypes[mv], ma.keyTypes[mc] = t, t, t
 	return md, mv, mc
+}
+
+// modKey maps a name in a modifies clause (a ghost variable or a raw heap key) to the heap key.
+func (db *contractDB) modKey(k string) string {
+	if _, ok := db.Ghosts[k]; ok {
+		return "G_" + k
+	}
+	return k
 }
